@@ -17,7 +17,9 @@ import (
 var WSPaths = []string{"nb", "blocking-parser", "blocking-transfer", "std-readloop", "std-transfer", "std-handleread"}
 
 // WSPathHasTLS reports whether TLS can be terminated by the engine on that path.
-func WSPathHasTLS(path string) bool { return path != "std-readloop" && path != "std-transfer" && path != "std-handleread" }
+func WSPathHasTLS(path string) bool {
+	return path != "std-readloop" && path != "std-transfer" && path != "std-handleread"
+}
 
 // StartWSServer starts a server that upgrades every request with u on the given path and returns its
 // address and a stop function.
